@@ -13,6 +13,8 @@ pub struct Alphabet {
     pub cmds: Vec<String>,
     pub help: Vec<Names>,
     pub version: Vec<Names>,
+    /// items that `any`/`literal` parsers of the definition look for
+    pub literals: Vec<String>,
 }
 
 pub fn alphabet(o: &OptSpec) -> Alphabet {
@@ -25,6 +27,13 @@ pub fn alphabet(o: &OptSpec) -> Alphabet {
                 a.flags.push(i.names.clone());
             } else if i.is_arg() {
                 a.args.push(i.names.clone());
+            } else if let Leaf::Any { accept, .. } = &i.leaf {
+                match accept {
+                    AnyAccept::Exact(l) | AnyAccept::Prefix(l) | AnyAccept::Not(l) => {
+                        a.literals.push(l.clone())
+                    }
+                    _ => {}
+                }
             }
         }
         a.help.push(o.help_names());
@@ -153,6 +162,14 @@ pub fn noise_vector(a: &Alphabet, rng: &mut Rng, max_len: usize) -> Vec<Vec<u8>>
                     }
                 }
                 v.push(b);
+            }
+            6 if !a.literals.is_empty() && rng.chance(1, 2) => {
+                let mut l = rng.pick(&a.literals).clone().into_bytes();
+                if rng.chance(1, 4) {
+                    tok += 1;
+                    l.extend_from_slice(format!("{}", tok).as_bytes());
+                }
+                v.push(l);
             }
             6 => {
                 tok += 1;
